@@ -68,7 +68,7 @@ def build_vocab():
     for name, alias in ATTR13:
         sp = [name, _case(name)] + ([alias, alias + " "] if alias else [name + " "])
         v.append((name, sp, [name, name.upper(), " " + (alias or name) + " "]))
-        neg = ["not " + name] + (["not " + alias, "not  " + alias.upper()] if alias else ["not  " + name])
+        neg = ["not " + name] + (["not " + alias, "not  " + alias] if alias else ["not  " + name])
         v.append(("not " + name, neg, ["not " + name, "NOT " + (alias or name)]))
     for i, (n1, a1) in enumerate(ATTR13):
         for n2, a2 in ATTR13[i + 1:]:
@@ -230,7 +230,8 @@ def expect_doc(toks):
 
     plain = ""
     ann = []
-    open_ = []  # [idx, start, canon, stylestr]
+    ann_w = []  # per character: the style definitions of the open tags AS WRITTEN (name [+ " " + parameters])
+    open_ = []  # [idx, start, canon, stylestr, as written]
     spans = {}
     nopen = 0
     for t in toks:
@@ -255,6 +256,15 @@ def expect_doc(toks):
     for o in open_:
         spans[o[0]] = (o[1], len(plain), o[3])
     return ("ok", plain, ann, [spans[i] for i in range(nopen)], ann_w)
+
+
+def show_style(st):
+    """a Style by its fields (not through Style.__str__, which is one of the things under test)"""
+    d = {n: getattr(st, n) for n, _ in ATTR13 if getattr(st, n) is not None}
+    for k in ("color", "bgcolor", "link"):
+        if getattr(st, k) is not None:
+            d[k] = getattr(st, k).name if k != "link" else st.link
+    return d
 
 
 def char_styles(text, console):
@@ -411,7 +421,7 @@ def run(ctx):
                 okm = str(res).startswith(want) and str(res).endswith(tail) and (pos is None or f" at position {pos} " in str(res))
                 ctx.check(okm, "doc:error-message", mk, f"message {str(res)!r}")
             continue
-        _, plain, ann, want_spans = exp
+        _, plain, ann, want_spans, ann_w = exp
         if not ctx.check(not isinstance(res, Exception), "doc:error_iff_nothing_to_close", mk, f"every closing tag has something to close but render raised {res!r}"):
             continue
         ctx.check(res.plain == plain, "doc:plain", mk, f"plain {res.plain!r}, expected the leaves {plain!r}")
@@ -430,6 +440,24 @@ def run(ctx):
             ok = len(real) == len(want) and all(r == w for r, w in zip(real, want))
             ctx.check(ok, "doc:Text.render-effective-style", mk, "the style a character is drawn with is not the combination of the tags open there, later-opened winning",
                       finding=L.F8_SLUG if (L.CLASSIFY_F8 and (not ok) and L.f8_shape(got, want_spans)) else None)
+            # the EFFECTIVE style, judged from the tag texts as written: independent of Style.normalize,
+            # Style.__str__ and Style.parse (own word parser + Style's keyword constructor)
+            memo = {}
+            want_w = []
+            undecided = False
+            for a in ann_w:
+                if a not in memo:
+                    sts = [L.o_style(w) for w in a]
+                    memo[a] = None if any(x is None for x in sts) else (Style.combine(sts) if sts else null)
+                undecided = undecided or memo[a] is None
+                want_w.append(memo[a])
+            if undecided:
+                ctx.note("oracle:style-undecided")
+            else:
+                bad_at = next((i for i, (r, w) in enumerate(zip(real, want_w)) if r != w), None)
+                ctx.check(len(real) == len(want_w) and bad_at is None, "doc:effective-style-as-written", mk,
+                          "character %r is drawn with style %r; the tags open there, as written %r, combine to %r"
+                          % ((bad_at, show_style(real[bad_at]), ann_w[bad_at], show_style(want_w[bad_at])) if bad_at is not None else (None, None, None, None)))
             # and Text.render itself means "covering spans in list order, later wins"
             fold = [Style.combine([console.get_style(st, default=null) for st in c]) if c else null for c in L.cover(got, len(plain))]
             ctx.check(len(real) == len(fold) and all(r == w for r, w in zip(real, fold)), "Text.render-vs-span-fold", mk, "Text.render disagrees with the fold of the covering spans in list order")
@@ -498,7 +526,7 @@ def run(ctx):
         "every string of length <= %d over the 12 symbols %r and every string of length <= %d over the 16 boundary symbols %r (%d strings in all; each gives one request per modelled function: "
         "escape, _parse, render(emoji=False), render(escape(s)), Text.from_markup(emoji=True); beyond length %d only strings in "
         "which RE_TAGS can match go to the model, all go through the direct evaluation) + %d seeded random strings of length 6..24 "
-        "+ %d seeded tag-grammar documents (nested/overlapping/implicit closes, 15 tag names x spellings x parameters, escaped leaves, 20%% malformed) "
+        "+ %d seeded tag-grammar documents (nested/overlapping/implicit closes, ~130 tag names x spellings x parameters: every attribute of Style and its alias alone, negated and in pairs, colours, links, non-styles, escaped leaves, 20%% malformed) "
         "+ structured strings (2-7 bracketed bodies of length <= 12 over the tag class, its neighbours, line feed, brackets, backslash, '=', blanks; "
         "0-7 backslashes in front; failing closes behind 2-9 backslashes) + Console.render_str / Console.print on all strings <= 3 over the 12 symbols (all 36 flag combinations up to length 2, 6 seeded ones of the 36 at length 3) and seeded lists of 1-3 strings; "
         "distinct = distinct canonical request lines (exhaustive shards enumerate distinct strings by construction)"
@@ -545,7 +573,7 @@ MANIFEST = {
     "note": "Trusted: Lean kernel; axioms propext/Classical.choice/Quot.sound; the correspondence harness; regex leftmost/greedy/lazy "
     "semantics for three patterns is modelled by hand scanners and tied only by the (exhaustive-to-length-5/7) correspondence. "
     "Parameters, not verified: Style.normalize (recorded from the real call and replayed by the model; its contract is checked by the "
-    "oracle on a 15-name vocabulary), the EMOJI table (data handed to the model per request), str.isspace (compared on code points). "
+    "oracle on a ~130-name vocabulary covering all 13 Style attributes and aliases alone, negated and in pairs; the style each character is drawn with is judged against Style objects built from the tag texts as written by the harness's own word parser, not through Style.parse/normalize/__str__), the EMOJI table (data handed to the model per request), str.isspace (compared on code points). "
     "Console glue is modelled with highlighting off, no console-level style and justify=None; style/justify/overflow pass-through is "
     "checked directly, not modelled. Code variant flag: SORT_SPANS = 0 (the repaired span order of fix 623ba68, what /repo contains; "
     "1 = rich 9.10.0 as found, `text.spans = sorted(spans)`, env VERIF_C04_SORT_SPANS). No known finding is open for this property: "
